@@ -84,10 +84,26 @@ def model(offered, merge, retention):
     return opt, tags
 
 
+_order = [0]
+
+
 def check_entry(entry, offered, merge, retention, where):
     from superrec2.utils.dynamic_programming import Candidate
 
     opt, tags = model(offered, merge, retention)
+    # whichever accessor is asked first: every other check starts with another one (len, iteration, info, infos, is_infinite)
+    _order[0] += 1
+    first = _order[0] % 6
+    if first == 1 and len(entry) != (len(tags) if retention == "ALL" else (1 if tags and retention == "ANY" else 0)):
+        raise Violation("entry.len.asked-first", observed=len(entry), expected="number of retained tags", extra={"where": where})
+    if first == 2 and len(list(entry)) != (len(tags) if retention == "ALL" else (1 if tags and retention == "ANY" else 0)):
+        raise Violation("entry.iter.asked-first", observed=len(list(entry)), expected="number of retained tags", extra={"where": where})
+    if first == 3 and (entry.info() is None) != (not tags or retention == "NONE"):
+        raise Violation("entry.info.asked-first", observed=str(entry.info()), expected="a tag iff one is retained", extra={"where": where})
+    if first == 4 and entry.is_infinite() != (not offered):
+        raise Violation("entry.is_infinite.asked-first", observed=entry.is_infinite(), expected=not offered, extra={"where": where})
+    if first == 5 and not (set(entry.infos()) <= tags):
+        raise Violation("entry.infos.asked-first", observed=sorted(map(str, entry.infos())), expected=sorted(map(str, tags)), extra={"where": where})
     val = entry.value()
     if val != opt:
         raise Violation("entry.value", observed=str(val), expected=str(opt), extra={"where": where})
@@ -193,6 +209,11 @@ def run_history(hist, cuts, merge, retention, target, use_set, others, comb, hel
                 check_entry(other_cell, [], merge, retention, f"untouched cell #{i}")
     # combine
     a = get()
+    # an entry combined with itself: every ordered pair of its retained tags is a candidate
+    selfc = (lambda x, y: Candidate(x.value + y.value, (x.info, y.info)))
+    res_self = a.combine(a, selfc)
+    prod_self = [(a.value() + a.value(), (ia, ib)) for ia in a.infos() for ib in a.infos()]
+    check_entry(res_self, prod_self, merge, retention, "combine with itself")
     for oh in others:
         b = Entry(MergePolicy[merge], RetentionPolicy[retention])
         b.update(*[Candidate(v, t) for v, t in oh])
